@@ -1238,6 +1238,17 @@ pub fn gen_shader(ch: &mut Ch, p: &Profile) -> Shader {
                                 }
                             }
                         }
+                        if p.avoid_known {
+                            // a vertex input struct that is also an entry result is known finding K6
+                            // (struct not emitted, its vertex impl is): covered by a canary
+                            let vin: Vec<usize> = sh
+                                .entries
+                                .iter()
+                                .filter(|e| e.stage == Stage::Vertex)
+                                .flat_map(|e| e.params.iter().filter_map(|q| if let EParam::Struct { st, .. } = q { Some(*st) } else { None }))
+                                .collect();
+                            cand.retain(|st| !vin.contains(st));
+                        }
                         cand.retain(|st| {
                             let ms = &sh.structs[*st].members;
                             !ms.is_empty() && ms.iter().all(|m| matches!(m.io, Io::Loc { flat: false, .. }) && matches!(m.ty, Ty::S(Sc::F32) | Ty::V(_, Sc::F32)))
